@@ -107,16 +107,34 @@ class Sim:
         self.live = set()        # allocated and not yet finalised
         self.held = []
         self.deleted = set()     # deleted by the program
-        self.cov = dict(owner_first=0, owned_first=0, reg_path=0, sweeps=0, swept=0, thr=0, cascade=0, maxdepth=0)
+        self.cov = dict(owner_first=0, owned_first=0, reg_path=0, sweeps=0, swept=0, thr=0, cascade=0, maxdepth=0,
+                        dtor_allocs=0, nested=0, alloc_route=0, dealloc_route=0)
         self.depth = 0
+        self.qchildren = {}      # id of a kind-q object -> [(child id, arena slot)]: what its destructor allocates
+        self.in_teardown = False
+        # known-finding territory met while simulating (KF-C06-dtor-alloc, F23): the generator discards such histories
+        self.kf = dict(clobber=0, late_child=0, stopped_child=0)
     def hv(self, oid): return (ARENA + self.slot[oid] * STRIDE) >> 3
     # ---- finalisation
     def finalise(self, a):
         self.live.discard(a)
         self.depth += 1; self.cov['maxdepth'] = max(self.cov['maxdepth'], self.depth)
+        for cid, cslot in self.qchildren.get(a, []): self.child_new(cid, cslot)
         x = self.owns.get(a)
         if x is not None: self.gc_rem(x, True)
         self.depth -= 1
+    def child_new(self, cid, cslot):
+        """new(Probe) issued by a destructor: GC_Set on the same collector, possibly a nested collection"""
+        self.kind[cid] = 'p'; self.how[cid] = 's'; self.slot[cid] = cslot
+        self.live.add(cid); self.cov['dtor_allocs'] += 1
+        if self.in_teardown: self.kf['late_child'] += 1
+        if not self.running: self.kf['stopped_child'] += 1; return
+        self.reg[cid] = False
+        if self.lay: self.lay.add(cid, self.hv(cid), False)
+        if len(self.reg) > self.mitems:
+            self.cov['nested'] += 1
+            if any(x is not None for x in self.pending): self.kf['clobber'] += 1
+            self.sweep(self.mark_set([cid]))      # overwrites the pending list of the sweep in progress, leaves it empty
     def gc_rem(self, x, nested=False):
         if not self.running: return
         if x in self.pending:
@@ -141,10 +159,12 @@ class Sim:
         self.mitems = thr(len(self.reg))
         self.pending = list(order)
         self.cov['sweeps'] += 1; self.cov['swept'] += len(order)
-        for i in range(len(self.pending)):
+        i = 0
+        while i < len(self.pending):      # `i < gc->freenum`, re-read at every turn
             x = self.pending[i]
             if x is not None:
                 self.pending[i] = None; self.finalise(x)
+            i += 1
         self.pending = []
         return order
     # ---- mark phase over ownership edges (GC_Mark with roots + held + the object being registered)
@@ -191,8 +211,12 @@ class Sim:
                 m.update(y for y in self.tree(t) if y in self.reg)
         return m
     # ---- ops; each returns the op line
-    def new(self, oid, kind, how, slot, owned):
+    def declare(self, oid, children):
+        self.qchildren[oid] = list(children)
+        return f"q {oid}" + ''.join(f' {c} {sl}' for c, sl in children)
+    def new(self, oid, kind, how, slot, owned, op='n'):
         self.kind[oid] = kind; self.how[oid] = how; self.slot[oid] = slot
+        if op == 'a': self.cov['alloc_route'] += 1
         order = []
         self.live.add(oid)
         if how != 'w' and self.running:
@@ -204,15 +228,16 @@ class Sim:
         if owned is not None:
             self.owns[oid] = owned; self.owner[owned] = oid
         o = '-' if owned is None else str(owned)
-        return f"n {oid} {kind} {how} {slot} {o} ;" + ''.join(f' {x}' for x in order)
-    def delete(self, oid, how):
+        return f"{op} {oid} {kind} {how} {slot} {o} ;" + ''.join(f' {x}' for x in order)
+    def delete(self, oid, how, op='d'):
         self.deleted.add(oid)
+        if op == 'D': self.cov['dealloc_route'] += 1
         if how == 'w': self.finalise(oid)
         else:
             before = len(self.live)
             self.gc_rem(oid)
             if before - len(self.live) > 1: self.cov['cascade'] += 1
-        return f"d {oid} {how}"
+        return f"{op} {oid} {how}"
     def collect(self, marks):
         order = self.sweep(marks)
         return 'c' + ''.join(f' {x}' for x in sorted(marks)) + ' ;' + ''.join(f' {x}' for x in order)
@@ -223,11 +248,12 @@ class Sim:
         self.held = list(ids)
         return 'k' + ''.join(f' {x}' for x in ids)
     def teardown(self):
+        self.in_teardown = True
         order = self.sweep(set())
         return 'e ;' + ''.join(f' {x}' for x in order)
 
-def gen_history(rng, primes, nops, mode=None, ordered=None, stops=False, nslots_used=None, chain_bias=0.35, maxlive=120, keep=0.7):
-    """one history (list of op lines) + coverage"""
+def gen_history(rng, primes, nops, mode=None, ordered=None, stops=False, nslots_used=None, chain_bias=0.35, maxlive=120, keep=0.7, qprob=0.0):
+    """one history (list of op lines) + coverage.  qprob = share of leaf allocations whose destructor allocates"""
     mode = mode or ('thread' if rng.random() < 0.3 else 'main')
     ordered = (rng.random() < 0.65) if ordered is None else ordered
     sim = Sim(ordered, primes)
@@ -263,11 +289,12 @@ def gen_history(rng, primes, nops, mode=None, ordered=None, stops=False, nslots_
         live_tops = tops()
         if r < 0.42 and len(sim.live) < maxlive:
             # allocation; possibly an owner of a currently held top (Box -> ... -> probe chains grow this way)
-            cand = [x for x in sim.held if x in sim.live and sim.how[x] != 'w' and x not in sim.owner and x != 0]
+            cand = [x for x in sim.held if x in sim.live and sim.how[x] != 'w' and x not in sim.owner and x != 0 and sim.kind[x] != 'q']
             make_box = cand and rng.random() < chain_bias
             empty_box = (not make_box) and rng.random() < 0.12      # a Box with no pointee yet: can close a ring later
             if ordered: kind = 'b' if (make_box or empty_box) else 'p'
             else: kind = rng.choice(['b', 'B']) if (make_box or empty_box) else 'p'
+            if kind == 'p' and qprob and rng.random() < qprob: kind = 'q'
             if not sim.running: how = 'w'          # new/new_root while stopped is the territory of known finding F23
             else: how = rng.choice(['s', 's', 's', 's', 'r', 'w'])
             if stops and how == 'r' and make_box: how = 's'
@@ -285,7 +312,14 @@ def gen_history(rng, primes, nops, mode=None, ordered=None, stops=False, nslots_
                 ms = sim.mark_set()
                 if any((not r) and x not in ms for x, r in sim.reg.items()):
                     lines.append(sim.gc())
-            lines.append(sim.new(oid, kind, how, slot, owned))
+            lines.append(sim.new(oid, kind, how, slot, owned, op='a' if rng.random() < 0.2 else 'n'))
+            if kind == 'q':
+                # what its destructor will allocate: one or two leaves at fresh identities and arena slots
+                ch = []
+                for _ in range(rng.choice([1, 1, 2])):
+                    sl = take_slot()
+                    if sl is not None: ch.append((fresh(), sl))
+                if ch: lines.append(sim.declare(oid, ch))
             # the program keeps the new object (mostly); an owned object is from now on reached through its owner
             kept = [h for h in sim.held if h != owned]
             if how == 'w' or rng.random() < keep: kept.append(oid)
@@ -317,7 +351,7 @@ def gen_history(rng, primes, nops, mode=None, ordered=None, stops=False, nslots_
             if how == 'r' and rng.random() < 0.5: how = 's'      # del and del_root are the same function
             elif how == 's' and rng.random() < 0.1: how = 'r'
             drop(x)
-            lines.append(sim.delete(x, how))
+            lines.append(sim.delete(x, how, op='D' if how == 'w' and sim.kind[x] != 'B' and rng.random() < 0.3 else 'd'))
         elif r < 0.72:
             # white-box collection with a chosen marked set: whole ownership trees of protected tops + some garbage tops
             marks = sim.protected_marks()
@@ -346,11 +380,13 @@ def gen_history(rng, primes, nops, mode=None, ordered=None, stops=False, nslots_
     # the program's obligations before teardown: collector running, roots and raws deleted
     if not sim.running: sim.running = True; lines.append('t')
     for x in sorted(tops()):
-        if x in sim.live and sim.is_top(x) and x not in sim.deleted and sim.how[x] in ('r', 'w'):
+        # (an object whose destructor allocates must not be left to the teardown sweep: known finding KF-C06-dtor-alloc)
+        if x in sim.live and sim.is_top(x) and x not in sim.deleted and (sim.how[x] in ('r', 'w') or sim.kind[x] == 'q'):
             drop(x)
             lines.append(sim.delete(x, sim.how[x]))
     # a root that is owned is deleted by its owner; owners that are garbage go at teardown. The anchor goes last.
     set_held([])
+    if qprob: lines.append(sim.gc())      # what the destructors allocated is reclaimed before teardown
     lines.append(sim.delete(0, 'r'))
     lines.append(sim.teardown())
     # released arena slots are reused only across histories: a history never reuses an address it has used
@@ -415,8 +451,33 @@ def ring_history(rng, primes, n, slots, hows, via='c', mode='main', ordered=True
     lines.append(sim.teardown())
     return lines, sim.cov, sim
 
+def nested_history(rng, primes, nheld, nchild, mode='main', how='s', via='d'):
+    """an object whose destructor allocates `nchild` leaves, deleted by the program (outside any sweep) while `nheld` other
+    objects are held: with few objects registered one of the registrations exceeds the threshold and runs a collection
+    from inside the destructor — harmless here (the pending list is empty).  Events are compared as sets."""
+    sim = Sim(False, primes)
+    lines = [f'H {mode} uno']
+    slots = rng.sample(range(1, 400), nheld + nchild + 2)
+    lines.append(sim.new(0, 'a', 'r', slots.pop(), None))
+    ids = []
+    for i in range(nheld):
+        lines.append(sim.new(i + 1, 'p', 's', slots.pop(), None, op=rng.choice('na')))
+        ids.append(i + 1); lines.append(sim.hold(list(ids)))
+    q = nheld + 1
+    lines.append(sim.new(q, 'q', how, slots.pop(), None, op=rng.choice('na')))
+    lines.append(sim.declare(q, [(q + 1 + j, slots.pop()) for j in range(nchild)]))
+    lines.append(sim.hold(ids + [q]))
+    lines.append(sim.hold(ids))
+    lines.append(sim.delete(q, how, op='D' if how == 'w' and via == 'D' else 'd'))
+    lines.append(sim.gc())
+    lines.append(sim.hold([]))
+    lines.append(sim.gc())
+    lines.append(sim.delete(0, 'r'))
+    lines.append(sim.teardown())
+    return lines, sim.cov, sim
+
 def _nontrivial(cov):
-    return cov['owner_first'] + cov['owned_first'] + cov['reg_path'] > 0
+    return cov['owner_first'] + cov['owned_first'] + cov['reg_path'] + cov['dtor_allocs'] > 0
 
 class C06(Spec):
     id = 'C06'; engine = 'life'; harness = 'h_life'; driver = 'drv_life'
@@ -466,6 +527,16 @@ class C06(Spec):
             stops = rng.random() < 0.25
             big = (not quick) and i % 25 == 0      # large registries: most objects stay reachable
             if big: lines, cov, _ = gen_history(rng, primes, 1500, stops=stops, maxlive=500, keep=0.97, chain_bias=0.3)
+            elif not stops and i % 3 == 0:
+                # objects whose destructors allocate — outside the territory of KF-C06-dtor-alloc: a history in which the
+                # mirror meets a nested collection that replaces a non-empty pending list, an allocation during the
+                # teardown sweep, or (pending orders compared) any nested collection is generated again
+                # (all objects in the arena: the order in which a sweep releases them decides whether a destructor's
+                # allocation comes before or after a `del` that resets mitems, so the real slot order is needed)
+                for attempt in range(8):
+                    lines, cov, sim = gen_history(rng, primes, nops, stops=False, ordered=True, maxlive=120 if quick else 300,
+                                                  keep=rng.choice([0.7, 0.9]), qprob=0.3 if attempt < 7 else 0.0)
+                    if not any(sim.kf.values()) and not sim.cov['nested']: break
             else: lines, cov, _ = gen_history(rng, primes, nops, stops=stops, maxlive=120 if quick else 300, keep=rng.choice([0.5, 0.7, 0.9]))
             hs.append((lines, cov))
         for i in range(0, len(hs), per):
@@ -504,6 +575,18 @@ class C06(Spec):
         for i in range(0, len(rg), 20):
             chunk = rg[i:i+20]
             cs.append(Case(f'ring{i//20}', [l for h, _ in chunk for l in h], meta={'hist': [(hash('\n'.join(h)), c) for h, c in chunk]}))
+        # allocating destructors run by an explicit deletion, with a collection started from inside the destructor
+        nh = []
+        for nheld in range(0, 6):
+            for nchild in range(1, 5):
+                for how in 'srw':
+                    for _ in range((1 if quick else 6) * boost):
+                        mode = 'thread' if rng.random() < 0.3 else 'main'
+                        lines, cov, sim = nested_history(rng, primes, nheld, nchild, mode, how, rng.choice('dD'))
+                        if not any(sim.kf.values()): nh.append((lines, cov))
+        for i in range(0, len(nh), 24):
+            chunk = nh[i:i+24]
+            cs.append(Case(f'dtoralloc{i//24}', [l for h, _ in chunk for l in h], meta={'hist': [(hash('\n'.join(h)), c) for h, c in chunk]}))
         return cs
     def nontrivial_items(self, case, c_out, m_out):
         if 'hist' in case.meta:
